@@ -144,7 +144,7 @@ theorem CoreClosed.step (h : CoreClosed P) (s : Pool) (op : Op) (hs : P s) : P (
     unfold removeExpired
     induction order generalizing s with
     | nil => exact hs
-    | cons a l ih => simp only [List.foldl_cons]; exact ih _ (h.rm _ _ hs)
+    | cons a l ih => simp only [List.foldl_cons]; exact ih _ (h.rmd _ _ hs)
   | detach ids =>
     show P (detachProposals s ids)
     unfold detachProposals
